@@ -327,4 +327,53 @@ PROPS["C10"] = {
     },
 }
 
+PROPS["C03"] = {
+    "lean": ["TinkVerif.Props.C03"],
+    "theorems": T("TinkVerif.Sig", "fullVerify_fullSign fullVerify_iff legacy_signs_suffixed p1363_roundtrip p1363_wrong_length "
+                  "p1363_encode_decode rsa_guard"),
+    "harness": [{"name": "c03", "timeout": 3000}],
+    "rule": "Go signs with ECDSA (P-256/384/521 × SHA256/384/512 admissible pairs × DER/P1363), Ed25519, RSA-SSA-PKCS1 (2048/3072 × hash), "
+            "RSA-SSA-PSS (salt 0/20/32/48/64 × hash), every variant TINK/CRUNCHY/LEGACY/RAW; the independent Lean verifier (curve arithmetic, "
+            "strict DER, EMSA encodings written from the standards) must accept over message‖0x00 for LEGACY; decisions of Go and the "
+            "reference must agree on mutation streams: bit flips, wrong/missing prefix, truncation/extension, (r, n−s), r or s = 0 / ≥ n, "
+            "DER re-encodings (long-form length, leading zeros, negative, trailing bytes, indefinite length, SET), P1363 of wrong length, "
+            "DER given to a P1363 key and vice versa, other key; non-trivial = every verification line, distinct by line hash",
+    "trusted_base": [KERNEL, TIE, PRIMS],
+    "assumptions": ["group-law correctness of the reference EC/RSA code is by KAT (RFC vectors, Wycheproof) and agreement with Go, not proved",
+                    "unforgeability of the schemes is cryptographic"],
+    "manifest": {
+        "text": "Theorems for every prefix, variant, message and raw scheme: a produced signature verifies; Verify accepts iff the "
+                "signature carries the key's prefix and the remainder verifies under the raw scheme over message(‖00 for LEGACY); the "
+                "IEEE-P1363 codec is a bijection between pairs of n-byte scalars and strings of exactly 2n bytes; RSA parameter guard. "
+                "Tie: accept/reject decisions of tink-go vs an independent strict verifier (ECDSA over P-256/384/521 with strict DER, "
+                "Ed25519, RSASSA-PKCS1, RSASSA-PSS) on Go-made signatures and systematic mutations/re-encodings.",
+        "design_ref": "DESIGN.md §5.3",
+        "note": "Trusted: Lean kernel; reference EC/RSA/Ed25519 verifiers (KAT + 27k cross-checked vectors).",
+        "technique": "Lean 4 proof (wrapper + codec laws) + Go/Lean verification-decision correspondence on mutation streams",
+    },
+}
+PROPS["C16"] = {
+    "lean": ["TinkVerif.Props.C16"],
+    "theorems": T("TinkVerif.Slh", "toInt_toByte toByte_length toByte_toInt toInt_lt base2b_length base2b_digit_lt idxTree_lt idxLeaf_lt"),
+    "harness": [{"name": "c16", "timeout": 3000}],
+    "rule": "all twelve SLH-DSA parameter sets: public key from seeds byte-identical with the FIPS 205 reference (f-sets quick, s-sets "
+            "thorough), deterministic signatures byte-identical (f-sets), Go hedged signatures verify in the reference for varied messages "
+            "(so tree/leaf indices and base-2^b digit patterns vary), mutations in every structural region (R, FORS secret/auth nodes, WOTS "
+            "chains, XMSS auth paths), wrong length ±1, other key/message → both reject; internal toInt/toByte/base2b/digest split compared "
+            "through export hooks on random and boundary inputs; non-trivial = every line, distinct by line hash",
+    "trusted_base": [KERNEL, TIE, PRIMS],
+    "assumptions": ["hashes are reference primitives; the FIPS 205 reference (Prim/Slhdsa.lean) is validated by the repo's KAT vectors "
+                    "and agreement with Go on 3300 cross-check lines, not proved",
+                    "the structural verify∘sign theorem (Merkle paths) is not proved; only the support laws are"],
+    "manifest": {
+        "text": "Theorems for all inputs: toInt/toByte are mutually inverse (mod 256^n), base_2^b yields exactly outLen digits each below "
+                "2^b, tree and leaf indices are in range for every digest and every (h, h'). Tie for the scheme: keys, deterministic "
+                "signatures and verification decisions of tink-go vs an independent FIPS 205 implementation in Lean on all twelve "
+                "parameter sets, incl. mutations in every structural region.",
+        "design_ref": "DESIGN.md §5.16",
+        "note": "Trusted: Lean kernel; reference FIPS 205 implementation (KAT + agreement); structural correctness not proved.",
+        "technique": "Lean 4 proof (support-function laws) + Go/Lean FIPS 205 correspondence",
+    },
+}
+
 NOT_BUILT = {}
